@@ -68,6 +68,9 @@ class Dataset:
     def flush(self):
         self.fs.op("dataset.flush")
 
+    def refresh(self):
+        self.fs.op("dataset.refresh")
+
     def __array__(self, dtype=None, copy=None):
         return _np.asarray(self.value)
 
